@@ -23,7 +23,7 @@ def drive_case(case):
     ret = outcome(lambda: dump_item(SigmaDetectionItem.from_mapping(key, src)))
     if not ret["ok"]:
         ret["out"] = {"value": [], "linking": "or", "negated": False}
-    return {"id": case["id"], "payload": case["payload"], "chain": case["chain"], "ret": ret}
+    return {"id": case["id"], "payload": case["payload"], "chain": case["chain"], "wild": case.get("wild", 0), "ret": ret}
 
 
 def _pretty(o):
